@@ -257,44 +257,117 @@ type episode struct {
 }
 
 var lifecycleKnownKinds = map[string]bool{"final-sync-failed": true, "still-open": true, "restore-mismatch": true,
-	"snapshot-content-mismatch": true, "read-lock-leaked": true, "fd-leak": true}
+	"read-lock-leaked": true, "fd-leak": true}
+// (snapshot-content-mismatch is handled next to them: it still occurs in the lifecycle profile after 94e7330)
 
 var raceRe = regexp.MustCompile(`(?s)WARNING: DATA RACE.*?==================`)
 
-// raceSignature: the litestream functions that perform the unsynchronised WRITE(s) of the report
-// (top litestream frame of each access stack that is a write). Stable across runs and line changes.
+// raceSignature names BOTH sides of a race report: the innermost litestream frame of each of the two access
+// stacks (function names, no line numbers) and, where the source line at the reported file:line shows it, the
+// struct field(s) being written / read there. The writing side comes first; two writes are sorted.
+//   C12/data-race/DB.Close[f]~DB.writeLTXFromDB[f]
+var (
+	raceBlockRe = regexp.MustCompile(`(?m)^(Write|Read|Previous write|Previous read|Atomic write|Previous atomic write|Atomic read|Previous atomic read) at [^\n]*\n((?:  [^\n]*\n)+)`)
+	raceFrameRe = regexp.MustCompile(`(?m)^  github\.com/benbjohnson/litestream((?:/[A-Za-z0-9_/-]+)?)\.([A-Za-z0-9_.()*\[\]]+)\(\)\n\s+(\S+):(\d+)`)
+	raceSelRe   = regexp.MustCompile(`(&?)\b([A-Za-z_][A-Za-z0-9_]*)((?:\.[A-Za-z_][A-Za-z0-9_]*)+)(\s*\()?`)
+)
+
+var racePkgNames = map[string]bool{"fmt": true, "os": true, "io": true, "context": true, "time": true, "ltx": true, "filepath": true,
+	"errors": true, "slog": true, "internal": true, "sql": true, "strings": true, "sync": true, "atomic": true, "semaphore": true,
+	"bytes": true, "binary": true, "sort": true, "slices": true, "math": true, "crc64": true, "prometheus": true, "litestream": true,
+	"path": true, "strconv": true, "rand": true, "log": true, "hex": true, "json": true, "lz4": true, "errgroup": true, "syscall": true}
+
+// raceFields: struct fields touched on a source line (receiver variable dropped): `db.f = nil` -> f.
+func raceFields(file string, line int, write bool) string {
+	b, err := os.ReadFile(file)
+	if err != nil {
+		return ""
+	}
+	lines := strings.Split(string(b), "\n")
+	if line < 1 || line > len(lines) {
+		return ""
+	}
+	text := lines[line-1]
+	if i := strings.Index(text, "//"); i >= 0 {
+		text = text[:i]
+	}
+	scope := text
+	if write {
+		// left-hand side of an assignment, if any
+		for i := 0; i < len(text); i++ {
+			if text[i] == '=' && (i+1 >= len(text) || text[i+1] != '=') && (i == 0 || !strings.ContainsRune("=!<>", rune(text[i-1]))) {
+				scope = text[:i]
+				break
+			}
+		}
+	}
+	collect := func(t string, onlyAddr bool) []string {
+		var out []string
+		for _, m := range raceSelRe.FindAllStringSubmatch(t, -1) {
+			if racePkgNames[m[2]] || (onlyAddr && m[1] == "") {
+				continue
+			}
+			parts := strings.Split(strings.TrimPrefix(m[3], "."), ".")
+			if m[4] != "" { // a call: the last component is the method
+				parts = parts[:len(parts)-1]
+			}
+			if len(parts) == 0 {
+				continue
+			}
+			out = append(out, strings.Join(parts, "."))
+		}
+		return out
+	}
+	fs := collect(scope, false)
+	if write && (scope == text || len(fs) == 0) { // no field on a left-hand side: e.g. `if err := ….Scan(&db.pageSize)`
+		if a := collect(text, true); len(a) > 0 {
+			fs = a
+		}
+	}
+	sort.Strings(fs)
+	var u []string
+	for _, f := range fs {
+		if len(u) == 0 || u[len(u)-1] != f {
+			u = append(u, f)
+		}
+	}
+	return strings.Join(u, ",")
+}
+
 func raceSignature(rep string) string {
-	blocks := regexp.MustCompile(`(?m)^(Write|Read|Previous write|Previous read|Atomic write|Previous atomic write|Atomic read|Previous atomic read) at [^\n]*\n((?:  [^\n]*\n)+)`).FindAllStringSubmatch(rep, -1)
-	fnRe := regexp.MustCompile(`github\.com/benbjohnson/litestream(?:/[a-z0-9/]+)?\.([A-Za-z0-9_.()*]+)\(\)`)
-	var writers, all []string
-	for _, b := range blocks {
-		m := fnRe.FindStringSubmatch(b[2])
+	type side struct {
+		name  string
+		write bool
+	}
+	var sides []side
+	for _, b := range raceBlockRe.FindAllStringSubmatch(rep, -1) {
+		m := raceFrameRe.FindStringSubmatch(b[2])
 		if m == nil {
+			sides = append(sides, side{"(outside litestream)", strings.Contains(strings.ToLower(b[1]), "write")})
 			continue
 		}
-		n := strings.NewReplacer("(*", "", ")", "").Replace(m[1])
+		n := strings.NewReplacer("(*", "", ")", "").Replace(m[2])
 		if i := strings.Index(n, ".func"); i > 0 {
 			n = n[:i]
 		}
-		all = append(all, n)
-		if strings.Contains(strings.ToLower(b[1]), "write") {
-			writers = append(writers, n)
+		if m[1] != "" {
+			n = m[1][strings.LastIndex(m[1], "/")+1:] + "." + n
 		}
-	}
-	if len(writers) == 0 {
-		writers = all
-	}
-	sort.Strings(writers)
-	var u []string
-	for _, w := range writers {
-		if len(u) == 0 || u[len(u)-1] != w {
-			u = append(u, w)
+		w := strings.Contains(strings.ToLower(b[1]), "write")
+		ln, _ := strconv.Atoi(m[4])
+		if f := raceFields(m[3], ln, w); f != "" {
+			n += "[" + f + "]"
 		}
+		sides = append(sides, side{n, w})
 	}
-	if len(u) == 0 {
-		return "unknown"
+	if len(sides) < 2 {
+		return "unparsed"
 	}
-	return "write:" + strings.Join(u, "+")
+	a, b := sides[0], sides[1]
+	if (!a.write && b.write) || (a.write == b.write && b.name < a.name) {
+		a, b = b, a
+	}
+	return a.name + "~" + b.name
 }
 
 func runEpisode(bin string, e episode, timeout time.Duration) (*childResult, string, error) {
@@ -309,8 +382,8 @@ func runEpisode(bin string, e episode, timeout time.Duration) (*childResult, str
 	if e.profile == "core" {
 		// the operations of the property without the triggers of the findings recorded in KNOWN_FINDINGS.json
 		// (object lifecycle races of Store.Register/Unregister/Enable/Disable/SyncDB, DB.init after a cancelled
-		// context, FULL checkpoints): every oracle kind counts here
-		ex := "unreg,reg,regstorm,disable,enable,storesync,chk:FULL"
+		// context): every oracle kind counts here
+		ex := "unreg,reg,regstorm,disable,enable,storesync"
 		if e.monitors {
 			// with the store's monitors running, snapshots/compactions/retention are theirs (one goroutine per
 			// level, as in the daemon); API-level concurrent DB.Snapshot calls share one temp file (known, api-only)
@@ -383,6 +456,9 @@ func dynamicPhase(o *hx.Opts, res *hx.Result, replayEp *episode) int {
 		if o.Tier == "thorough" {
 			nPlain, nRace, gor, ops = 10, 6, 10, 50
 		}
+		if n, _ := strconv.Atoi(os.Getenv("C12_RACE_SURVEY")); n > 0 { // development aid: collect race signatures
+			nPlain, nRace = 0, n
+		}
 		for i := 0; i < nPlain; i++ {
 			eps = append(eps, episode{seed: r.Uint64() % 1000000, procs: procs[(int(o.Seed)+i)%len(procs)], gor: gor, ops: ops, monitors: i%3 == 2,
 				profile: []string{"core", "lifecycle"}[i%2]})
@@ -420,13 +496,28 @@ func dynamicPhase(o *hx.Opts, res *hx.Result, replayEp *episode) int {
 		if cr.CallsStarted != cr.CallsFinished {
 			cr.Violations = append(cr.Violations, map[string]string{"kind": "calls-unfinished", "what": fmt.Sprintf("%d calls started, %d finished", cr.CallsStarted, cr.CallsFinished)})
 		}
+		l0Differs := false
+		for _, v := range cr.Violations {
+			if v["kind"] == "restore-mismatch" && strings.Contains(v["what"], "alone restore to a different image than the replica's restore plan (which equals the source)") {
+				l0Differs = true
+			}
+		}
 		for _, v := range cr.Violations {
 			failures++
 			sig := "C12/stress/" + v["kind"]
-			if e.profile == "lifecycle" && lifecycleKnownKinds[v["kind"]] {
+			switch {
+			case e.profile == "lifecycle" && (lifecycleKnownKinds[v["kind"]] || v["kind"] == "snapshot-content-mismatch"):
 				// consequences of the object-lifecycle findings (KNOWN_FINDINGS.json); the same kinds are
 				// unmasked in the core profile, and deadlock / panic / regstorm / close-hung are never masked
 				sig = "C12/lifecycle/" + v["kind"]
+			case v["kind"] == "restore-mismatch" && l0Differs && strings.Contains(v["what"], "alone restore to a different image"):
+				// the restore (planner) equals the source, but the level-0 files alone compose to a different page
+				sig = "C12/stress/l0-chain-differs-from-plan"
+			case v["kind"] == "snapshot-content-mismatch" && l0Differs && strings.Contains(v["what"], "differs from the state composed from L0 files"):
+				sig = "C12/stress/snapshot-vs-l0-chain-when-l0-chain-differs"
+			case v["kind"] == "snapshot-content-mismatch" && strings.Contains(v["detail"], "= TXID+1"):
+				// the snapshot holds pages of the NEXT transaction (the oracle's diagnostic found them at TXID+1)
+				sig = "C12/stress/snapshot-holds-pages-of-next-txid"
 			}
 			if reported[sig] {
 				continue
@@ -442,17 +533,14 @@ func dynamicPhase(o *hx.Opts, res *hx.Result, replayEp *episode) int {
 					continue
 				}
 				failures++
-				// one finding per function performing an unsynchronised write
-				for _, w := range strings.Split(strings.TrimPrefix(raceSignature(rep), "write:"), "+") {
-					sig := "C12/data-race/write:" + w
-					if reported[sig] {
-						continue
-					}
-					reported[sig] = true
-					rp2 := rp
-					rp2.Detail = tail(rep, 12000)
-					res.AddFinding("violation", sig, fmt.Sprintf("race detector report in litestream code (seed=%d procs=%d): unsynchronised write in %s", e.seed, e.procs, w), rp2)
+				sig := "C12/data-race/" + raceSignature(rep)
+				if reported[sig] {
+					continue
 				}
+				reported[sig] = true
+				rp2 := rp
+				rp2.Detail = tail(rep, 12000)
+				res.AddFinding("violation", sig, fmt.Sprintf("race detector report in litestream code (seed=%d procs=%d): %s (writer first; [fields] read off the reported source lines)", e.seed, e.procs, raceSignature(rep)), rp2)
 			}
 		}
 	}
@@ -550,7 +638,9 @@ func main() {
 		}
 	}
 
-	staticPhase(o, res, d)
+	if os.Getenv("C12_RACE_SURVEY") == "" {
+		staticPhase(o, res, d)
+	}
 	if os.Getenv("C12_SKIP_DYNAMIC") != "" { // development aid for mutation trials; never set by registered commands
 		res.Notes = append(res.Notes, "dynamic phase skipped by C12_SKIP_DYNAMIC")
 	} else {
